@@ -98,10 +98,20 @@ pub async fn expect_closed(s: &mut TcpStream, wait: Duration) -> Probe {
     }
 }
 
-/// a free loopback port (bind to 0, read it back, release)
+static NEXT_PORT: std::sync::atomic::AtomicU32 = std::sync::atomic::AtomicU32::new(0);
+
+/// A loopback port reserved for one script. Ports come from a private range below the
+/// ephemeral range and are never handed out twice in one process, so a listener that is
+/// deliberately closed ("connection refused") cannot be replaced by somebody else's.
 pub fn free_port(ip: IpAddr) -> u16 {
-    let l = std::net::TcpListener::bind(SocketAddr::new(ip, 0)).unwrap();
-    l.local_addr().unwrap().port()
+    let salt = (std::process::id() % 97) * 131;
+    loop {
+        let k = NEXT_PORT.fetch_add(1, std::sync::atomic::Ordering::SeqCst);
+        let port = 12_000 + ((k + salt) % 18_000) as u16;
+        if std::net::TcpListener::bind(SocketAddr::new(ip, port)).is_ok() {
+            return port;
+        }
+    }
 }
 
 /// minimal application for black-box servers: holding register 0 of every unit reads 0x1234
